@@ -123,3 +123,16 @@ func Ints(fields []string) []int64 {
 	}
 	return out
 }
+
+// Unhex is the inverse of Hex.
+func Unhex(s string) string {
+	if s == "-" {
+		return ""
+	}
+	b := make([]byte, len(s)/2)
+	for i := range b {
+		v, _ := strconv.ParseUint(s[2*i:2*i+2], 16, 8)
+		b[i] = byte(v)
+	}
+	return string(b)
+}
